@@ -64,6 +64,8 @@ pub fn make_variant(base: &History, choices: &[u8]) -> Variant {
     let mut map: Vec<usize> = vec![0; nh];
     let mut obs: Vec<Option<usize>> = vec![None; nh];
     let mut dead: Vec<bool> = vec![false; nh];
+    // handles whose keep_gradient flag was rewritten by tracked()/untracked() since they were created
+    let mut keep_rewritten: Vec<bool> = vec![false; nh];
     let mut cur = 0usize; // next base handle id
     let mut n_rewrites = 0;
     let mut touched = false;
@@ -134,9 +136,21 @@ pub fn make_variant(base: &History, choices: &[u8]) -> Variant {
                 nslots += 1;
                 cur += 1;
             }
-            Step::Flag { h, how } => out.push(Step::Flag { h: map[*h], how: *how }),
+            Step::Flag { h, how } => {
+                if matches!(how, FlagOp::Tracked | FlagOp::Untracked) {
+                    keep_rewritten[*h] = true;
+                }
+                out.push(Step::Flag { h: map[*h], how: *how })
+            }
             Step::Backward { h, seed } => {
-                if next(2) {
+                // a clone of the result taken when it was created: the handle the program uses may have been told to
+                // stop or start tracking since, which says how LATER operations treat it and nothing about the pass
+                // (whether the result keeps its own gradient is the other flag, so that one must not have been rewritten)
+                if obs[*h].is_some() && !keep_rewritten[*h] && next(3) {
+                    out.push(Step::Backward { h: obs[*h].unwrap(), seed: seed.clone() });
+                    n_rewrites += 1;
+                    touched = true;
+                } else if next(2) {
                     out.push(Step::Clone { h: map[*h] });
                     let t = nslots;
                     nslots += 1;
